@@ -185,6 +185,7 @@ def write_golden(repo):
     C.write_if_changed(os.path.join(C.LEAN, EXTRACTED), generate(repo))
     for p in anchor_files():
         C.write_if_changed(os.path.join(C.LEAN, 'YaclibModel/Props/Anchors/%s.lean' % p), theorem_source(p))
+    write_support_golden(repo)
 
 
 def golden_table():
@@ -204,6 +205,79 @@ def golden_table():
     except OSError:
         pass
     return tab
+
+
+# ---- supporting files (T2c): what the anchor files transitively include, plus the .cpp of those headers.  They are part
+# of the TRUSTED BASE of a property (modelled, not verified), so a change there is not a broken obligation; it is a reason
+# to search harder on the implementation side (the checks run their extended search when this list is non-empty) and is
+# recorded in the evidence.
+_INC = None
+FAULT_PROPS = ('C17', 'C18', 'C19')
+SUPPORT_GOLDEN = 'YaclibModel/Model/SupportGolden.json'
+
+
+def _resolve(repo, inc, cur):
+    for c in (os.path.join('include', inc), os.path.join('src', inc), os.path.join(os.path.dirname(cur), inc)):
+        c = os.path.normpath(c)
+        if os.path.isfile(os.path.join(repo, c)):
+            return c
+    return None
+
+
+def _impl_of(repo, h):
+    if not h.startswith('include/yaclib/') or not h.endswith('.hpp'):
+        return []
+    p = h[len('include/yaclib/'):-4]
+    out = []
+    for q in (p, p.replace('/detail/', '/')):
+        c = 'src/' + q + '.cpp'
+        if os.path.isfile(os.path.join(repo, c)):
+            out.append(c)
+    return out
+
+
+def closure(repo, files):
+    global _INC
+    import re
+    if _INC is None:
+        _INC = re.compile(r'^\s*#\s*include\s*[<"]([^>"]+)[>"]', re.M)
+    seen = set(files)
+    todo = list(files)
+    while todo:
+        f = todo.pop()
+        try:
+            txt = open(os.path.join(repo, f), errors='replace').read()
+        except OSError:
+            continue
+        for n in [_resolve(repo, i, f) for i in _INC.findall(txt)] + _impl_of(repo, f):
+            if n and n not in seen:
+                seen.add(n)
+                todo.append(n)
+    return seen
+
+
+def support_table(repo):
+    out = {}
+    for p, fs in anchor_files().items():
+        deps = closure(repo, fs) - set(fs)
+        if p not in FAULT_PROPS:
+            deps = {d for d in deps if '/fault/' not in d and 'yaclib_std' not in d}
+        out[p] = {d: digest(repo, d) for d in sorted(deps)}
+    return out
+
+
+def write_support_golden(repo):
+    C.write_if_changed(os.path.join(C.LEAN, SUPPORT_GOLDEN), json.dumps(support_table(repo), indent=1, sort_keys=True) + '\n')
+
+
+def changed_support(prop, repo):
+    """supporting files of `prop` whose code differs from the reviewed version (added / removed / changed)"""
+    try:
+        g = json.load(open(os.path.join(C.LEAN, SUPPORT_GOLDEN))).get(prop, {})
+    except (OSError, ValueError):
+        return ['(no golden list of supporting files)']
+    cur = support_table(repo).get(prop, {})
+    return sorted(f for f in set(g) | set(cur) if g.get(f) != cur.get(f))
 
 
 def changed_files(prop, repo):
